@@ -100,17 +100,39 @@ func enumTrees(budget int, scalars, singleKeys []string, emit func(text string, 
 	}
 }
 
-func docAlphabet(tier string) (budget int, scalars, keys []string) {
+// docAlphabets: quick = every tree with <= 4 nodes over the 14-scalar
+// alphabet; thorough = every tree with <= 4 nodes over the 24-scalar alphabet
+// and 6 single-member keys, plus every tree with exactly 5 nodes over the
+// 14-scalar alphabet (the 5-node sweep over 24 scalars is 2.6 million
+// documents, beyond the time budget).
+type docSweep struct {
+	budget, from  int
+	scalars, keys []string
+}
+
+func docAlphabets(tier string) []docSweep {
 	if tier == engine.Thorough {
-		return 5, append(append([]string{}, scalarsQuick...), scalarsThoroughExtra...),
-			append(append([]string{}, singleKeysQuick...), singleKeysThoroughExtra...)
+		return []docSweep{
+			{budget: 4, from: 1, scalars: append(append([]string{}, scalarsQuick...), scalarsThoroughExtra...),
+				keys: append(append([]string{}, singleKeysQuick...), singleKeysThoroughExtra...)},
+			{budget: 5, from: 5, scalars: scalarsQuick, keys: singleKeysQuick},
+		}
 	}
-	return 4, scalarsQuick, singleKeysQuick
+	return []docSweep{{budget: 4, from: 1, scalars: scalarsQuick, keys: singleKeysQuick}}
+}
+
+func enumerateDocTexts(tier string, emit func(text string, nodes int)) {
+	for _, sw := range docAlphabets(tier) {
+		enumTrees(sw.budget, sw.scalars, sw.keys, func(text string, nodes int) {
+			if sw.from <= nodes {
+				emit(text, nodes)
+			}
+		})
+	}
 }
 
 func enumerateDocs(tier string, emit func(string)) {
-	budget, scalars, keys := docAlphabet(tier)
-	enumTrees(budget, scalars, keys, func(text string, nodes int) {
+	enumerateDocTexts(tier, func(text string, nodes int) {
 		emit("doc|j|" + text)
 		emit("doc|s|" + text)
 	})
@@ -197,6 +219,30 @@ func depthOf(v any) int {
 	return d + 1
 }
 
+func hasEmptyContainer(v any) bool {
+	switch tv := v.(type) {
+	case []any:
+		if len(tv) == 0 {
+			return true
+		}
+		for _, e := range tv {
+			if hasEmptyContainer(e) {
+				return true
+			}
+		}
+	case map[string]any:
+		if len(tv) == 0 {
+			return true
+		}
+		for _, e := range tv {
+			if hasEmptyContainer(e) {
+				return true
+			}
+		}
+	}
+	return false
+}
+
 func leafScalars(v any, out *[]any) {
 	switch tv := v.(type) {
 	case []any:
@@ -281,15 +327,16 @@ func execDoc(spec string) (res engine.Result) {
 		case "string-keywordlike", "string-numberlike", "string-numberprefix", "key:string-keywordlike", "key:string-numberlike":
 			res.Hit("lookalike-string")
 			hard = true
-		case "empty-array", "empty-object":
-			res.Hit("empty-container")
-			hard = true
 		case "false", "null", "float":
 			hard = true
 		}
 	}
 	if 3 <= depthOf(model) {
 		res.Hit("depth>=3")
+	}
+	if hasEmptyContainer(model) {
+		res.Hit("empty-container")
+		hard = true
 	}
 	res.Nontrivial = 1 < nodes || hard
 
@@ -371,9 +418,15 @@ func execDoc(spec string) (res engine.Result) {
 		if variant == "(bag-native b)" {
 			outcome = append(outcome, dump(lispToTree(nv), false))
 		}
-		bo, berr := lisp.EvalIn(scope, "(make-bag nat)")
+		// make-bag parses a string argument as text, so a bag whose whole
+		// content is one string goes back through bag-set on a fresh bag
+		back := "(make-bag nat)"
+		if _, isStr := nv.(slip.String); isStr {
+			back = "(bag-set (make-instance 'bag-flavor) nat)"
+		}
+		bo, berr := lisp.EvalIn(scope, back)
 		if berr != nil {
-			res.Fail("stage=native-roundtrip kind="+errKind(berr), ctx+": (make-bag "+lisp.Show(nv)+") => "+berr.String())
+			res.Fail("stage=native-roundtrip kind="+errKind(berr), ctx+": "+back+" with nat = "+lisp.Show(nv)+" => "+berr.String())
 			continue
 		}
 		b3, ok3 := bagOf(bo)
